@@ -509,12 +509,62 @@ def check_importer(ctx, model, prop):
 
 
 def _node_of_value(model, m, v):
-    """table value -> ("class", name) | ("helper", name)"""
+    """table value -> ("class", name) | ("helper", name) | ("built", (cls, shape))
+    shape "tuple": cls((x, y)); "pair": cls(x, y)"""
     if isinstance(v, ast.Attribute) and ast.unparse(v.value) == "p":
         return ("class", v.attr)
     if isinstance(v, ast.Name):
         return ("helper", v.id)
-    return ("other", ast.unparse(v))
+    # lambda x, y: p.Cls((x, y))
+    if isinstance(v, ast.Lambda) and len(v.args.args) == 2:
+        b = _pair_builder(v.body, [a.arg for a in v.args.args], None)
+        if b is not None:
+            return ("built", b)
+    # factory(p.Cls) where  def factory(c): def f(x, y): return c((x, y)); return f
+    if isinstance(v, ast.Call) and isinstance(v.func, ast.Name) and \
+            len(v.args) == 1 and not v.keywords and isinstance(
+            v.args[0], ast.Attribute) and ast.unparse(v.args[0].value) == "p":
+        key = f"{IAST}:{v.func.id}"
+        if key in model.functions:
+            _, fac = model.functions[key]
+            inner = [st for st in fac.body if isinstance(st, ast.FunctionDef)]
+            rets = [st for st in fac.body if isinstance(st, ast.Return)]
+            if len(fac.args.args) == 1 and len(inner) == 1 and len(rets) == 1 \
+                    and isinstance(rets[0].value, ast.Name) and \
+                    rets[0].value.id == inner[0].name and \
+                    len(inner[0].args.args) == 2:
+                r = [st for st in inner[0].body if isinstance(st, ast.Return)]
+                if len(r) == 1 and len(inner[0].body) == 1:
+                    b = _pair_builder(r[0].value,
+                                      [a.arg for a in inner[0].args.args],
+                                      fac.args.args[0].arg)
+                    if b is not None:
+                        return ("built", (v.args[0].attr, b[1]))
+    raise AnalysisError(f"importer operator table: entry {ast.unparse(v)} is of "
+                        "a form the checker cannot read")
+
+
+def _pair_builder(body, params, cls_param):
+    """body is  C((x, y))  or  C(x, y)  with C = p.<Cls> (or the name cls_param)
+    -> (class name or None, shape)"""
+    if not (isinstance(body, ast.Call) and not body.keywords):
+        return None
+    f = body.func
+    if cls_param is not None:
+        if not (isinstance(f, ast.Name) and f.id == cls_param):
+            return None
+        cname = None
+    else:
+        if not (isinstance(f, ast.Attribute) and ast.unparse(f.value) == "p"):
+            return None
+        cname = f.attr
+    a = body.args
+    if len(a) == 1 and isinstance(a[0], ast.Tuple) and \
+            [ast.unparse(e) for e in a[0].elts] == params:
+        return (cname, "tuple")
+    if len(a) == 2 and [ast.unparse(e) for e in a] == params:
+        return (cname, "pair")
+    return None
 
 
 def _binary_entry_ok(model, nt, v, sym, want):
@@ -532,7 +582,7 @@ def _binary_entry_ok(model, nt, v, sym, want):
     if kind == "helper":
         sem = _helper_semantics(model, None, name)
         if sem is None:
-            return False, f"helper {name} not analysable"
+            raise AnalysisError(f"importer helper {name}: not analysable")
         params, rv = sem
         x, y = ("param", params[0]), ("param", params[1])
         if sym == "-":
@@ -552,7 +602,15 @@ def _binary_entry_ok(model, nt, v, sym, want):
             ok = rv[2] == (x, y)
         return ok, "" if ok else (f"helper {name} does not pass its operands to "
                                   f"{want} in order")
-    return False, f"entry {name} not understood"
+    if kind == "built":
+        cname, shape = name
+        if cname != want:
+            return False, f"builds {cname}, but '{sym}' denotes {want}"
+        n = nt.get(want)
+        ok = (shape == "tuple") == (len(n.fields) == 1)
+        return ok, "" if ok else (f"{want} is built with the wrong argument "
+                                  f"shape ({shape})")
+    raise AnalysisError(f"importer table entry {name}: form not handled")
 
 
 def _unary_entry_ok(model, nt, v, sym):
@@ -565,7 +623,7 @@ def _unary_entry_ok(model, nt, v, sym):
     if kind == "helper":
         sem = _helper_semantics(model, None, name)
         if sem is None:
-            return False, f"helper {name} not analysable"
+            raise AnalysisError(f"importer helper {name}: not analysable")
         params, rv = sem
         x = ("param", params[0])
         if rv == ("unop", "USub", x):
@@ -582,4 +640,4 @@ def _unary_entry_ok(model, nt, v, sym):
         return ok, "" if ok else (f"helper {name} computes "
                                   f"{'arithmetic negation' if got == 'NEG' else got}"
                                   f", but '{sym}' denotes {want}")
-    return False, f"entry {name} not understood"
+    raise AnalysisError(f"importer table entry {name}: form not handled")
